@@ -342,11 +342,21 @@ pub fn text_alphabet(large: bool) -> Vec<(String, String)> {
         ("padded-cdata-end".into(), " a]]>b ".into()),
         ("cdata-end-newline".into(), "if t[i[1]]>0 then\n".into()),
         ("padded-cdata-open".into(), " <![CDATA[x ".into()),
+        // characters XML 1.0 discourages but allows (DEL, C1 controls); the ones it cannot carry
+        // at all are a family of their own (`xml_forbidden_chars`)
+        ("del".into(), "a\u{7f}b".into()),
+        ("c1-control".into(), "a\u{80}b".into()),
     ];
     if large {
         v.push(("len64k".into(), "abcdefgh".repeat(8192)));
     }
     v
+}
+
+/// Characters that are not `Char`s of XML 1.0 (section 2.2): no document can contain them, not
+/// even as character references.
+pub fn xml_forbidden_chars() -> Vec<(&'static str, char)> {
+    vec![("u0001", '\u{1}'), ("u0008", '\u{8}'), ("u000b", '\u{b}'), ("u000c", '\u{c}'), ("u001f", '\u{1f}'), ("ufffe", '\u{fffe}'), ("uffff", '\u{ffff}')]
 }
 
 /// The 24 axis-aligned rotation matrices (signed permutations with det +1),
@@ -467,6 +477,11 @@ pub fn matrix_alphabet() -> Vec<(String, Matrix3)> {
     v.push((
         "rotation-30deg".into(),
         mat(&[[0.8660254, -0.5, 0.0], [0.5, 0.8660254, 0.0], [0.0, 0.0, 1.0]]),
+    ));
+    // equal to the previous one under `==`, different in bits
+    v.push((
+        "rotation-30deg-negzero".into(),
+        mat(&[[0.8660254, -0.5, -0.0], [0.5, 0.8660254, 0.0], [-0.0, -0.0, 1.0]]),
     ));
     v.push((
         "nan-entry".into(),
